@@ -104,6 +104,27 @@ def StringToDataType (s : Bytes) : GoLib.M Int := do
 
 end ds
 
+/-! ## package hash (ds/hash) -/
+namespace hash
+
+/-- Go: ds/hash/hash.go:18  `type keyValuePair struct` -/
+structure keyValuePair where
+  key : Bytes
+  value : Bytes
+  deriving DecidableEq, Inhabited
+
+/-- Go: ds/hash/hash.go:33  `func decodeKeyValuePair(b []byte) *keyValuePair` -/
+def decodeKeyValuePair (b : Bytes) : GoLib.M (Option keyValuePair) := do
+  let mut b := b
+  let (t1_, t2_) := (GoLib.binary_Varint b)
+  let mut l : Int := t1_
+  let mut n : Int := t2_
+  b := (← GoLib.slice b n (GoLib.len b))
+  let mut key : Bytes := (← GoLib.slice b 0 l)
+  return (some ({ key := key, value := (← GoLib.slice b l (GoLib.len b)) } : keyValuePair))
+
+end hash
+
 /-! ## package str (ds/str) -/
 namespace str
 
